@@ -11,6 +11,7 @@ mod oracle;
 mod scen_c03;
 mod scen_c06;
 mod scen_c07;
+mod scen_c09;
 mod scen_c10;
 mod scen_c15;
 mod scen_r1cs;
@@ -167,6 +168,24 @@ fn tasks_for(prop: &str, tier: &str, seed: u64) -> Vec<Task> {
             }
             out
         }
+        "C09" => {
+            let mut out = vec![];
+            for (k, shape) in scen_c09::c09_shapes(thorough, seed).into_iter().enumerate() {
+                let cs: Vec<&str> = if thorough { curves.clone() } else { vec![["secq256k1", "zorro", "curve25519"][k % 3]] };
+                for c in cs {
+                    let (shape, c) = (shape.clone(), c.to_string());
+                    out.push(Task {
+                        name: format!("C09:{}:{}", shape.name, c),
+                        replay: serde_json::json!({"kind": "c09", "shape": scen_r1cs::shape_json(&shape), "seed": seed}),
+                        run: Box::new(move || {
+                            use scen_c09::job_c09 as f;
+                            on_curve!(c.as_str(), f, &shape, seed, &c)
+                        }),
+                    });
+                }
+            }
+            out
+        }
         "C07" => {
             let mut out = vec![];
             for (k, case) in scen_c07::c07_cases(thorough).into_iter().enumerate() {
@@ -316,7 +335,7 @@ fn main() {
                     println!("REPLAY {}", if any_wrong { "REPRODUCED" } else { "NOT-REPRODUCED" });
                     std::process::exit(if any_wrong { 1 } else { 0 });
                 }
-                Some(kind @ ("c10" | "c13" | "c15" | "c07" | "c06")) => {
+                Some(kind @ ("c10" | "c13" | "c15" | "c07" | "c06" | "c09")) => {
                     let seed = rp["seed"].as_u64().unwrap_or(0);
                     let mut any_wrong = false;
                     for (k, m) in [(0u64, model.clone()), (1, HashMap::new()), (2, HashMap::new())] {
@@ -326,6 +345,10 @@ fn main() {
                                 replay::c10_native::<Secq>(&case, seed + k, m)
                             }
                             "c13" => replay::c13_native::<Secq>(rp["variant"].as_str().unwrap(), seed + k, m),
+                            "c09" => {
+                                let shape: r1cs::Shape = serde_json::from_value(rp["shape"].clone()).unwrap();
+                                replay::c09_native::<Secq>(&shape, seed + k)
+                            }
                             "c06" => {
                                 let shape: r1cs::Shape = serde_json::from_value(rp["shape"].clone()).unwrap();
                                 replay::c06_native::<Secq>(&shape, seed + k)
